@@ -514,6 +514,48 @@ func checkC03(c *Ctx) {
 	// ---- C03.8 the handler turns a peer away before the deadline is armed only when an address lookup FAILED; what a
 	// lookup says about the address (no record, reserved AS number, unknown country) is an answer, not a failure -
 	// otherwise every peer from an address the databases do not cover is closed at once, whatever it sends
+	// ---- C03.12 the only exit before the deadline is "the peer has no IP address": for a TCP peer the address is taken
+	// from the socket address itself (a printed address with an IPv6 zone does not parse back)
+	r.Rule("C03.12", "a TCP peer's address is read from its *net.TCPAddr, not re-parsed from text", 1)
+	if f := c.fn("C03.12", "cmd/application", "", "getRemoteAsIP"); f != nil {
+		okk := false
+		eachInstr(f, func(in ssa.Instruction) {
+			ta, ok := in.(*ssa.TypeAssert)
+			if !ok || typeShort(ta.AssertedType) != "*net.TCPAddr" || !strings.HasSuffix(pathOf(ta.X), ".RemoteAddr()") {
+				return
+			}
+			want := pathOf(ta)
+			if ta.CommaOk {
+				want += "#0"
+			}
+			want += ".IP"
+			// its IP is what the function answers (directly or through the named result)
+			eachInstr(f, func(in2 ssa.Instruction) {
+				switch x := in2.(type) {
+				case *ssa.Return:
+					if len(x.Results) == 1 && pathOf(x.Results[0]) == want {
+						okk = true
+					}
+				case *ssa.Store:
+					if _, isA := x.Addr.(*ssa.Alloc); isA && pathOf(x.Val) == want {
+						okk = true
+					}
+				case *ssa.Phi:
+					for _, e := range x.Edges {
+						if pathOf(e) == want {
+							okk = true
+						}
+					}
+				}
+			})
+		})
+		r.Check(okk, "C03.12", "getRemoteAsIP: answers the IP of the connection's *net.TCPAddr", f.Pos(), fnName(f), "type test on RemoteAddr(), its IP field returned",
+			"the peer address of a TCP connection is not taken from its *net.TCPAddr: an address rebuilt from the printed form is nil for zone-scoped (link-local IPv6) sources, the handler treats the peer as 'not an IP connection' and returns before setting the deadline - such probes are closed at once")
+	}
+
+	// ---- C03.11 positive identification means this connection's own tag was revealed and found
+	r.Rule("C03.11", "the prefix transport identifies a peer only by the tag revealed from this connection's bytes", 1)
+	checkPrefixLookupKey(c, "C03.11")
 	r.Rule("C03.8", "the GeoIP wrappers report an error only when the database reader returned one", 2)
 	for _, m := range []string{"ASN", "CC"} {
 		f := c.fn("C03.8", "pkg/station/geoip", "maxMindDatabase", m)
